@@ -14,8 +14,9 @@ import (
 // be linked into one program without clashing in protoregistry.GlobalFiles / GlobalTypes. The copy is
 // again a valid set: it is the same schema in another package. Custom options cannot be moved that
 // way (their extendees are the google.protobuf.*Options messages, the numbers are fixed and their
-// uses are unknown fields of options messages), so the copy drops their declarations, their uses and
-// the source info (whose paths index the declarations); the unprefixed unit of a program keeps them.
+// uses are unknown fields of options messages), so the copy drops their declarations, their uses and,
+// in the files that declared them, the source info (whose paths index the declarations); the
+// unprefixed unit of a program keeps them.
 func prefixSet(files []*descriptorpb.FileDescriptorProto, pfx string) []*descriptorpb.FileDescriptorProto {
 	if pfx == "" {
 		return files
@@ -92,16 +93,22 @@ func prefixSet(files []*descriptorpb.FileDescriptorProto, pfx string) []*descrip
 				walk(m.NestedType)
 			}
 		}
-		c.SourceCodeInfo = nil
+		dropped := len(c.Extension)
 		c.Extension = dropCustom(c.Extension)
+		dropped -= len(c.Extension)
 		var strip func(ms []*descriptorpb.DescriptorProto)
 		strip = func(ms []*descriptorpb.DescriptorProto) {
 			for _, m := range ms {
+				dropped += len(m.Extension)
 				m.Extension = dropCustom(m.Extension)
+				dropped -= len(m.Extension)
 				strip(m.NestedType)
 			}
 		}
 		strip(c.MessageType)
+		if dropped > 0 {
+			c.SourceCodeInfo = nil // its paths index the declarations
+		}
 		dropUnknown(c.ProtoReflect())
 		fields(c.Extension)
 		walk(c.MessageType)
